@@ -14,6 +14,8 @@ import Mathlib.Tactic.FieldSimp
 import Mathlib.Tactic.Positivity
 import Mathlib.Algebra.Order.Floor.Ring
 import Mathlib.Data.Rat.Floor
+import AbtemVerif.Gen.DetectR
+import Mathlib.Analysis.SpecialFunctions.Sqrt
 
 namespace AbtemVerif.Props.C12
 open AbtemVerif.Detect AbtemVerif.Py AbtemVerif.Np AbtemVerif.Gen.Detect AbtemVerif.Polar
@@ -225,6 +227,220 @@ theorem binLabel_range (a r na nr : Nat) (ha : a < na) (hr : r < nr) :
   refine ⟨by positivity, h1, ?_, ?_⟩
   · rw [Int.add_mul_ediv_right _ _ (by omega), Int.ediv_eq_zero_of_lt (by omega) (by omega)]; simp
   · rw [Int.add_mul_emod_self_right, Int.emod_eq_of_lt (by omega) (by omega)]
+
+/-! ### the segmented detector, without hypotheses on the labels (1, 2 or 4 sectors, rotation 0) -/
+
+/-- `a² ≤ k2 < b²` -/
+def inAnn (k2 a b : Rat) : Bool := decide (a ^ 2 ≤ k2) && decide (k2 < b ^ 2)
+
+lemma inAnn_split (k2 a b c : Rat) (h : inAnn k2 a c = true) :
+    inAnn k2 a b = true ∨ inAnn k2 b c = true := by
+  unfold inAnn at *
+  simp only [Bool.and_eq_true, decide_eq_true_eq] at *
+  obtain ⟨p, q⟩ := h
+  rcases lt_or_ge k2 (b ^ 2) with hlt | hge
+  · exact Or.inl ⟨p, hlt⟩
+  · exact Or.inr ⟨hge, q⟩
+
+lemma edge_le (a w : Rat) (hw : 0 ≤ w) (r s : Nat) (h : r ≤ s) : edge a w r ≤ edge a w s := by
+  unfold edge
+  have : (r : Rat) ≤ (s : Rat) := by exact_mod_cast h
+  nlinarith
+
+lemma inRadialBin_inAnn (k2 inner outer : Rat) (nb r : Nat) (hk : 0 ≤ k2) (hi : 0 ≤ inner) (hio : inner ≤ outer) :
+    inRadialBin k2 inner outer nb r
+      = inAnn k2 (edge inner ((outer - inner) / nb) r) (edge inner ((outer - inner) / nb) (r + 1)) := by
+  have hw : 0 ≤ (outer - inner) / (nb : Rat) := div_nonneg (by linarith) (by positivity)
+  unfold inRadialBin inAnn
+  have e1 := edge_nonneg inner _ hi hw r
+  have e2 := edge_nonneg inner _ hi hw (r + 1)
+  have c1 : inner + (r : Rat) * ((outer - inner) / nb) = edge inner ((outer - inner) / nb) r := rfl
+  have c2 : inner + ((r : Rat) + 1) * ((outer - inner) / nb) = edge inner ((outer - inner) / nb) (r + 1) := by
+    unfold edge; push_cast; ring
+  rw [c1, c2, sqrtGe_nonneg _ _ hk e1, sqrtLt_nonneg _ _ hk e2]
+
+lemma bins_cover (k2 a w : Rat) (ha : 0 ≤ a) (hw : 0 ≤ w) :
+    ∀ m : Nat, inAnn k2 (edge a w 0) (edge a w m) = true → ∃ r, r < m ∧ inAnn k2 (edge a w r) (edge a w (r + 1)) = true := by
+  intro m
+  induction m with
+  | zero =>
+    intro h
+    unfold inAnn at h
+    simp only [Bool.and_eq_true, decide_eq_true_eq] at h
+    exact absurd (lt_of_le_of_lt h.1 h.2) (lt_irrefl _)
+  | succ m ih =>
+    intro h
+    rcases inAnn_split k2 _ (edge a w m) _ h with h1 | h2
+    · obtain ⟨r, hr, hb⟩ := ih h1
+      exact ⟨r, by omega, hb⟩
+    · exact ⟨m, by omega, h2⟩
+
+/-- Every pixel of the annulus falls in exactly the radial bin found by the model, and that bin exists (`r < nb`). -/
+theorem radialBin_of_valid (k2 inner outer : Rat) (nb : Nat) (hk : 0 ≤ k2) (hi : 0 ≤ inner) (hio : inner < outer) (hnb : 1 ≤ nb)
+    (hv : polarValid k2 inner outer = true) : ∃ r, radialBin k2 inner outer nb = some r ∧ r < nb := by
+  have hw : 0 ≤ (outer - inner) / (nb : Rat) := div_nonneg (by linarith) (by positivity)
+  have hnb' : (nb : Rat) ≠ 0 := by
+    have : (0 : Rat) < nb := by exact_mod_cast hnb
+    exact ne_of_gt this
+  have e0 : edge inner ((outer - inner) / nb) 0 = inner := by unfold edge; simp
+  have en : edge inner ((outer - inner) / nb) nb = outer := by unfold edge; field_simp; ring
+  have hv' : inAnn k2 (edge inner ((outer - inner) / nb) 0) (edge inner ((outer - inner) / nb) nb) = true := by
+    rw [e0, en]
+    unfold polarValid at hv
+    rw [sqrtGe_nonneg _ _ hk hi, sqrtLt_nonneg _ _ hk (le_trans hi hio.le)] at hv
+    exact hv
+  obtain ⟨r0, hr0, hb0⟩ := bins_cover k2 inner _ hi hw nb hv'
+  rw [← inRadialBin_inAnn k2 inner outer nb r0 hk hi hio.le] at hb0
+  unfold radialBin
+  rw [if_pos hv]
+  cases hf : (List.range nb).find? (inRadialBin k2 inner outer nb) with
+  | none =>
+    have := List.find?_eq_none.1 hf r0 (List.mem_range.2 hr0)
+    exact absurd hb0 this
+  | some r =>
+    exact ⟨r, rfl, List.mem_range.1 (List.mem_of_find?_eq_some hf)⟩
+
+lemma azimuthalBin_lt (kx ky : Rat) (na : Nat) (hna : na = 1 ∨ na = 2 ∨ na = 4) :
+    ∃ a, azimuthalBin kx ky na = some a ∧ a < na := by
+  unfold azimuthalBin
+  rcases hna with rfl | rfl | rfl
+  · exact ⟨0, by simp, by omega⟩
+  · simp only [show ¬ (2 = 1) by omega, if_false, if_true]
+    split_ifs
+    · exact ⟨0, rfl, by omega⟩
+    · exact ⟨1, rfl, by omega⟩
+  · simp only [show ¬ (4 = 1) by omega, show ¬ (4 = 2) by omega, if_false, if_true]
+    split_ifs
+    · exact ⟨0, rfl, by omega⟩
+    · exact ⟨1, rfl, by omega⟩
+    · exact ⟨2, rfl, by omega⟩
+    · exact ⟨3, rfl, by omega⟩
+
+/-- **The sum over all segments of a SegmentedDetector spanning `[inner, outer)` equals the annular intensity** —
+for the executable model of `_polar_detector_bins` + `polar_binning` itself (1, 2 or 4 azimuthal sectors, any number
+of radial bins, any pattern, shifted or not). -/
+theorem polarSums_sum_eq_annular (g : Geom) (x : Nat → Int) (inner outer : Rat) (nr na : Nat)
+    (hna : na = 1 ∨ na = 2 ∨ na = 4) (hnr : 1 ≤ nr) (hi : 0 ≤ inner) (hio : inner < outer) :
+    ∃ s, polarSums g inner outer (nr : Int) (na : Int) x = .ok s ∧ s.sum = annularSum g inner outer x := by
+  have hna0 : 1 ≤ na := by rcases hna with rfl | rfl | rfl <;> omega
+  have hcond : ((nr : Int) ≤ 0 || (na : Int) ≤ 0) = false := by
+    simp only [Bool.or_eq_false_iff, decide_eq_false_iff_not, not_le]
+    constructor <;> omega
+  -- the label of every pixel
+  have hlabel : ∀ k, ∃ l : Int, polarLabel g inner outer nr na k = some l ∧
+      (annularMask g inner outer k = true → 0 ≤ l ∧ l < ((nr * na : Nat) : Int)) ∧
+      (annularMask g inner outer k = false → l = -1) := by
+    intro k
+    obtain ⟨a, haz, ha⟩ := azimuthalBin_lt (g.ax k) (g.ay k) na hna
+    have hval := polarValid_is_annulus g inner outer k hi hio.le
+    cases hm : annularMask g inner outer k with
+    | true =>
+      rw [hm] at hval
+      obtain ⟨r, hr, hrlt⟩ := radialBin_of_valid (g.k2 k) inner outer nr (k2_nonneg g k) hi hio hnr hval
+      refine ⟨binLabel a r na, ?_, ?_, ?_⟩
+      · unfold polarLabel; rw [hr, haz]
+      · intro _
+        have := binLabel_range a r na nr ha hrlt
+        exact ⟨this.1, this.2.1⟩
+      · intro h; exact absurd h (by simp)
+    | false =>
+      rw [hm] at hval
+      have hr : radialBin (g.k2 k) inner outer nr = none := by
+        unfold radialBin; rw [if_neg (by rw [hval]; simp)]
+      refine ⟨-1, ?_, ?_, ?_⟩
+      · unfold polarLabel; rw [hr, haz]
+      · intro h; exact absurd h (by simp)
+      · intro _; rfl
+  choose lab hlab using hlabel
+  refine ⟨(List.range (nr * na)).map fun (l : Nat) =>
+    maskSum g.size (fun k => polarLabel g inner outer nr na k == some (l : Int)) x, ?_, ?_⟩
+  · unfold polarSums
+    rw [hcond]
+    simp only [Bool.false_eq_true, if_false, Int.toNat_natCast]
+  · have hmask : ∀ (l : Nat), maskSum g.size (fun k => polarLabel g inner outer nr na k == some (l : Int)) x
+        = maskSum g.size (fun k => lab k == (l : Int)) x := by
+      intro l
+      apply maskSum_congr
+      intro k _
+      rw [(hlab k).1]
+      simp
+    simp only [hmask]
+    exact segments_sum_eq_annular g x inner outer (nr * na) lab (fun k _ => (hlab k).2)
+
+/-! ### the generated real-valued expressions (`alpha = √k2`) agree with the rational decisions of the model -/
+
+lemma sqrt_ge_iff (k2 e : ℚ) (hk : 0 ≤ k2) (he : 0 ≤ e) : (e : ℝ) ≤ Real.sqrt (k2 : ℝ) ↔ e ^ 2 ≤ k2 := by
+  have hk' : (0 : ℝ) ≤ (k2 : ℝ) := by exact_mod_cast hk
+  have he' : (0 : ℝ) ≤ (e : ℝ) := by exact_mod_cast he
+  rw [Real.le_sqrt he']
+  all_goals first | exact hk' | (constructor <;> intro h <;> exact_mod_cast h)
+
+lemma sqrt_lt_iff (k2 e : ℚ) (_hk : 0 ≤ k2) (he : 0 < e) : Real.sqrt (k2 : ℝ) < (e : ℝ) ↔ k2 < e ^ 2 := by
+  have he' : (0 : ℝ) < (e : ℝ) := by exact_mod_cast he
+  rw [Real.sqrt_lt' he']
+  constructor <;> intro h <;> exact_mod_cast h
+
+/-- the generated real-valued `valid` mask is the rational decision of the model -/
+theorem polarValidR_eq (k2 inner outer : ℚ) (hk : 0 ≤ k2) (hi : 0 ≤ inner) (hio : inner < outer) :
+    AbtemVerif.Gen.DetectR.polarValid (Real.sqrt (k2 : ℝ)) (inner : ℝ) (outer : ℝ) = polarValid k2 inner outer := by
+  unfold AbtemVerif.Gen.DetectR.polarValid polarValid
+  rw [sqrtGe_nonneg _ _ hk hi, sqrtLt_nonneg _ _ hk (le_trans hi hio.le), Bool.eq_iff_iff]
+  simp only [Bool.and_eq_true, decide_eq_true_eq, ge_iff_le]
+  rw [sqrt_ge_iff k2 inner hk hi, sqrt_lt_iff k2 outer hk (lt_of_le_of_lt hi hio)]
+
+theorem radialQuot_floor_iff (k2 inner outer : ℚ) (nb r : ℕ) (hk : 0 ≤ k2) (hi : 0 ≤ inner) (hio : inner < outer) (hnb : 1 ≤ nb) :
+    ⌊AbtemVerif.Gen.DetectR.radialQuot (Real.sqrt (k2 : ℝ)) (inner : ℝ) (outer : ℝ) (nb : ℝ)⌋ = (r : ℤ) ↔ inRadialBin k2 inner outer nb r = true := by
+  have hnbQ : (0 : ℚ) < (nb : ℚ) := by exact_mod_cast hnb
+  have hwQ : 0 < (outer - inner) / (nb : ℚ) := div_pos (by linarith) hnbQ
+  rw [inRadialBin_inAnn k2 inner outer nb r hk hi hio.le]
+  unfold inAnn
+  simp only [Bool.and_eq_true, decide_eq_true_eq]
+  have e1 : 0 ≤ edge inner ((outer - inner) / nb) r := edge_nonneg _ _ hi hwQ.le r
+  have e2 : 0 < edge inner ((outer - inner) / nb) (r + 1) := by
+    unfold edge; push_cast; nlinarith
+  rw [← sqrt_ge_iff k2 _ hk e1, ← sqrt_lt_iff k2 _ hk e2, Int.floor_eq_iff]
+  unfold AbtemVerif.Gen.DetectR.radialQuot edge
+  have hw : (0 : ℝ) < ((outer : ℝ) - inner) := by
+    have : (0 : ℚ) < outer - inner := by linarith
+    exact_mod_cast this
+  have hn : (0 : ℝ) < (nb : ℝ) := by exact_mod_cast hnb
+  push_cast
+  constructor
+  · rintro ⟨h1, h2⟩
+    rw [le_div_iff₀ hw] at h1
+    rw [div_lt_iff₀ hw] at h2
+    constructor
+    · have : (r : ℝ) * ((outer - inner) / nb) = (r : ℝ) * (outer - inner) / nb := by ring
+      rw [this, ← sub_nonneg]
+      have : Real.sqrt k2 - (inner + r * (outer - inner) / nb) = (nb * (Real.sqrt k2 - inner) - r * (outer - inner)) / nb := by
+        field_simp
+        ring
+      rw [this]
+      apply div_nonneg _ hn.le
+      linarith
+    · have : Real.sqrt k2 < inner + (r + 1) * (outer - inner) / nb := by
+        rw [← sub_pos]
+        have : inner + (r + 1) * (outer - inner) / nb - Real.sqrt k2 = ((r + 1) * (outer - inner) - nb * (Real.sqrt k2 - inner)) / nb := by
+          field_simp; ring
+        rw [this]
+        apply div_pos _ hn
+        linarith
+      calc Real.sqrt k2 < inner + (r + 1) * (outer - inner) / nb := this
+        _ = _ := by ring
+  · rintro ⟨h1, h2⟩
+    constructor
+    · rw [le_div_iff₀ hw]
+      have : inner + (r : ℝ) * ((outer - inner) / nb) = inner + r * (outer - inner) / nb := by ring
+      rw [this] at h1
+      have h3 : (r : ℝ) * (outer - inner) / nb ≤ Real.sqrt k2 - inner := by linarith
+      rw [div_le_iff₀ hn] at h3
+      linarith
+    · rw [div_lt_iff₀ hw]
+      have : inner + ((r : ℝ) + 1) * ((outer - inner) / nb) = inner + (r + 1) * (outer - inner) / nb := by ring
+      rw [this] at h2
+      have h3 : Real.sqrt k2 - inner < ((r : ℝ) + 1) * (outer - inner) / nb := by linarith
+      rw [lt_div_iff₀ hn] at h3
+      linarith
 
 /-! ### the flexible detector -/
 
